@@ -350,6 +350,11 @@ class Evaluator:
             if op in ("/", "%") and y != 0:
                 q = abs(x) // abs(y) * (1 if (x >= 0) == (y >= 0) else -1)      # Rust: truncation towards zero
                 return ("lit", q if op == "/" else x - q * y)
+        if self.ints and a[0] == "tuple" and b[0] == "tuple" and len(a[1]) == len(b[1]) and op in ("==", "!=", "<", "<=", ">", ">=") and \
+                all(x[0] == "lit" and isinstance(x[1], int) and not isinstance(x[1], bool) for x in a[1] + b[1]):
+            # tuples of integers compare lexicographically
+            x, y = [t[1] for t in a[1]], [t[1] for t in b[1]]
+            return mk_bool({"==": x == y, "!=": x != y, "<": x < y, "<=": x <= y, ">": x > y, ">=": x >= y}[op])
         if self.ints and a[0] == "lit" and b[0] == "lit" and isinstance(a[1], str) and isinstance(b[1], str) and op in ("==", "!="):
             return mk_bool((a[1] == b[1]) == (op == "=="))
         if self.ints and op in ("==", "!=") and a[0] == "v" and b[0] == "v" and self.concrete(a) and self.concrete(b):
